@@ -492,7 +492,7 @@ def s_paired(S):
 # --------------------------------------------------------------------------- contracts monitored on the repository's test-suite
 
 @standin('contracts-monitored-on-the-repository-test-suite',
-         props=['C01', 'C03', 'C05', 'C06', 'C07', 'C09', 'C10', 'C12', 'C13', 'C14', 'C15', 'C16'])
+         props=['C01', 'C03', 'C05', 'C06', 'C07', 'C09', 'C10', 'C12', 'C13', 'C14', 'C15', 'C16'], thorough_only=True)
 def s_monitor(S):
     """Thorough tier only: every contract installed as a run-time wrapper while the 59 repository tests run."""
     if S.tier != 'thorough':
